@@ -16,6 +16,7 @@ pub mod ext_g5;
 pub mod ext_g6;
 pub mod ext_g7;
 
+use crate::refimpl::Variant as _;
 use crate::engine::Tape;
 use elements::confidential::{Asset, Nonce, Value};
 use elements::hashes::Hash as _;
@@ -425,16 +426,16 @@ pub fn tx_features(tx: &Transaction) -> Vec<&'static str> {
     if tx.input.iter().any(|i| i.has_issuance() && i.asset_issuance.asset_blinding_nonce != ZERO_TWEAK) {
         f.push("reissuance");
     }
-    if tx.output.iter().any(|o| o.asset.is_confidential()) {
+    if tx.output.iter().any(|o| o.asset.v_conf()) {
         f.push("conf-asset");
     }
-    if tx.output.iter().any(|o| o.value.is_confidential()) {
+    if tx.output.iter().any(|o| o.value.v_conf()) {
         f.push("conf-value");
     }
-    if tx.output.iter().any(|o| o.nonce.is_confidential()) {
+    if tx.output.iter().any(|o| o.nonce.v_conf()) {
         f.push("conf-nonce");
     }
-    if tx.output.iter().any(|o| o.nonce.is_explicit()) {
+    if tx.output.iter().any(|o| o.nonce.v_expl()) {
         f.push("explicit-nonce");
     }
     if tx.output.iter().any(|o| o.asset.is_null() || o.value.is_null()) {
